@@ -199,6 +199,7 @@ DepConds(ev) ==
                     {"C13"} \cup (CASE ev.sym \in {"getenv", "setlocale"} -> {"C07", "C09"}       \* hidden input from the process environment
                                     [] ev.sym = "explicit_bzero" -> {"C16"}                     \* wiping behind the injected function
                                     [] ev.sym = "strtok" -> {"C20", "C14"}                      \* hidden static state in libc
+                                    [] ev.sym = "prctl" -> {"C20", "C18"}                       \* process-wide attributes saved / restored around a call
                                     [] OTHER -> {"C18"}),
                     FALSE) >>
          [] OTHER -> << Cond("unknown-dependency-event", {"C13"}, FALSE) >>
